@@ -109,6 +109,8 @@ class C10(SessionCheck):
                         if evs[j][0] == 7:
                             prev = obs[j]
                             break
+                        if evs[j][0] in (0, 2, 8) and obs[j] and obs[j][0] == 0:
+                            break   # the state changed since the last snapshot: the new entry cannot be read off
                     new = None
                     if prev is not None:
                         for rb, ra in zip(prev[0][3], snap[0][3]):
@@ -121,6 +123,12 @@ class C10(SessionCheck):
                                 hist_ok[h] = hist_ok[h] + [new]
                             else:
                                 hist_ok[h] = None
+                    else:
+                        # what was scheduled is not known from the snapshots: nothing to compare histories with
+                        # until the next reset
+                        accepted.append(None)
+                        for h in hist_ok:
+                            hist_ok[h] = None
                     want_q = specq[k4:k4 + 4]
                     k4 += 4
                     # post-state seen by recording observers
@@ -135,7 +143,10 @@ class C10(SessionCheck):
                                                      f"that is not the state after the dispatch took effect",
                                                      expected=exp, observed=ent))
                 elif t == 0 and ok:
-                    k4 += 0
+                    # sparsely observed session: this dispatch is not followed by a snapshot
+                    accepted.append(None)
+                    for h in hist_ok:
+                        hist_ok[h] = None
             elif t == 7:
                 if o[4] != subs:
                     fails.append(Failure("oracle", "subscriber-list",
